@@ -241,9 +241,16 @@ pub fn run(args: &Args, report: &mut Report) {
                     SinkKind::ForEach => {}
                 }
             }
+            // "all other workers unwind instead of blocking for ever": workers only. A network
+            // thread (e.g. an acceptor still waiting for a host that already failed) is not a
+            // worker, and in a real deployment it dies with its host's process, whose main thread
+            // has already failed; it is counted as evidence, not as a violation.
+            let workers: Vec<_> = res.leaked_threads.iter().filter(|t| t.coord.is_some()).cloned().collect();
             if !res.leaked_threads.is_empty() {
-                if res.leak_certified {
-                    errs.push(format!("{} engine threads are parked for ever after the failure (all parked, no engine event across 8 snapshots): {}", res.leaked_threads.len(), census_json(&res.leaked_threads)));
+                if res.leak_certified && !workers.is_empty() {
+                    errs.push(format!("{} workers are parked for ever after the failure (all remaining threads parked, no engine event across 8 snapshots): {}", workers.len(), census_json(&workers)));
+                } else if res.leak_certified {
+                    report.count("jobs_leaving_only_network_threads_parked_after_the_failure", 1);
                 } else {
                     report.count("jobs_with_threads_still_unwinding_after_90s", 1);
                 }
